@@ -20,7 +20,8 @@ RejectInput == n' = n /\ res' = "ParsingException"
 BuildOutcomes == {"built", "ParsingException", "MetaException"}
 Build(out) == out \in BuildOutcomes /\ n' = n /\ res' = out
 
-Next == \/ \E k \in 0..MaxStmts : n + k <= MaxStmts /\ Accept(k)
+MCAccept(k) == n + k <= MaxStmts /\ Accept(k)
+Next == \/ \E k \in 0..MaxStmts : MCAccept(k)
         \/ RejectInput
         \/ \E out \in BuildOutcomes : Build(out)
 
